@@ -9,31 +9,31 @@
    `record_count d t l` = how many of {appointment receipt, pending row, invalid row} exist for (t, l) in database d. *)
 From TeosModel Require Import Base Db Client ClientFlow ClientFlowProofs.
 
-(* After every completed operation, for every owed (tower, locator): EXACTLY ONE record — over all operation
-   sequences, all replies, duplicates, several towers, revocations in every retrier state, restarts at operation
-   boundaries — under the guard `ops_fresh`: registertower is not used to register again with an abandoned tower
-   while the retry manager still tracks data for it. *)
+(* After every completed operation, for every owed (tower, locator): EXACTLY ONE record — over ALL operation
+   sequences (no guard), all replies, duplicates, several towers, revocations in every retrier state, abandon and
+   re-registration in every retrier state, restarts at operation boundaries.
+   (Full statement since fix 8108569: before it, abandontower + registertower of a tower whose retry task was alive let
+   the task deliver a locator that was no pending row of the new tower record, and delete the body another tower's
+   pending row hangs on; the theorem needed the guard `ops_fresh` and was refuted without it.) *)
 Theorem C05_recorded_exactly_one ops :
-  ops_fresh f_init ops = true ->
   let s := frun f_init ops in
   forall t l, owed s t l = true -> record_count (c_db (f_c s)) t l = 1%nat.
 Proof. exact (recorded_exactly_one ops). Qed.
 Print Assumptions C05_recorded_exactly_one.
 
-(* WITHOUT the guard the statement is REFUTED (genuine defect, replayed on the real plugin): abandontower +
-   registertower of a tower whose retry task is still alive lets the task deliver a locator that is no pending row of
-   the re-registered tower; delete_pending_appointment then deletes the body the OTHER tower's pending row hangs on. *)
-Theorem C05_recorded_exactly_one_refuted :
-  exists ops t l, let s := frun f_init ops in
-    poisoned s = false /\ owed s t l = true /\ record_count (c_db (f_c s)) t l = 0%nat.
-Proof. exact recorded_exactly_one_refuted. Qed.
-Print Assumptions C05_recorded_exactly_one_refuted.
+(* the former counterexample (two towers down, abandon + re-register tower 0 while its retrier runs, the stale retrier
+   gets an accepting tower): tower 1 still has its record, the stale locator was dropped, nothing panicked *)
+Example C05_former_counterexample :
+  let s := frun f_init w_c05_ops in
+  poisoned s = false /\ owed s 1 5 = true /\ record_count (c_db (f_c s)) 1 5 = 1%nat /\
+  has_pending_row (c_db (f_c s)) 1 5 = true /\ has_receipt_row (c_db (f_c s)) 0 5 = false /\ f_log s = f_log (frun f_init (removelast w_c05_ops)).
+Proof. vm_compute. repeat split. Qed.
 
 (* SIGKILL at any moment: every durable state an operation writes (`crash_states`: the database before, and after
    each of its durable statements / transactions, in program order) still holds AT LEAST ONE record for every
    (tower, locator) owed before the operation - the transient two-record state of a move is the intended mechanism. *)
 Theorem C05_recorded_at_least_one_at_crash ops o :
-  ops_fresh f_init ops = true -> let s := frun f_init ops in fresh_ok s o = true ->
+  let s := frun f_init ops in
   forall d, In d (crash_states o s) ->
   forall t l, In (t, l) (f_due s) -> tower_row d t = true -> exists_misbehaving_proof d t = false ->
   (1 <= record_count d t l)%nat.
@@ -54,9 +54,8 @@ Example C05_exactly_one_again_after_crash :
 Proof. vm_compute. repeat split. Qed.
 
 (* A retrier run never loses a record: what had a receipt, a pending row or an invalid row before still has one of
-   the three after (for EVERY (tower, locator), owed or not, every reply sequence given to the retrier). *)
+   the three after (for EVERY (tower, locator), owed or not, every reply sequence given to the retrier, every state). *)
 Theorem C05_no_record_lost_by_retry ops t atts :
-  ops_fresh f_init ops = true ->
   let s := frun f_init ops in
   forall k x, recorded (c_db (f_c s)) k x -> recorded (c_db (f_c (fst (fstep s (FRetrierRun t atts))))) k x.
 Proof. exact (no_record_lost_by_retry ops t atts). Qed.
@@ -69,6 +68,6 @@ Example C05_nonvacuous :
               FManagerTick []; FManagerTick []; FRevocation 5 [] [(0, AAccept 110); (1, AAccept 110)]; FRestart;
               FManagerTick []; FManagerTick []; FRetrierRun 1 [w_att [AAccept 110] true]] in
   let s := frun f_init ops in
-  ops_fresh f_init ops = true /\ owed s 0 5 = true /\ owed s 1 5 = true /\
+  owed s 0 5 = true /\ owed s 1 5 = true /\
   has_receipt_row (c_db (f_c s)) 1 5 = true /\ has_pending_row (c_db (f_c s)) 1 5 = false.
 Proof. vm_compute. repeat split. Qed.
